@@ -479,6 +479,85 @@ func c12RunBacklog(c *explore.Ctx, k c12Backlog) {
 	})
 }
 
+// c12Retained: a retained message with an expiry interval is replayed to a new
+// subscription whose in-flight window is full, waits W in the session queue and is then
+// released.  Only intervals not above the configured maximum are generated (whether the cap
+// also applies to a replayed retained message is not something the statement settles).
+func c12Retained(c *explore.Ctx, E, M, W int64) {
+	cas := func() any {
+		return map[string]any{"case": fmt.Sprintf("retained message E=%d replayed at SUBSCRIBE behind a full window, M=%d, W=%dms", E, M, W), "retained": true, "E": E, "M": M, "Wms": W}
+	}
+	c.Count("executions", 1)
+	c.Count("states", 1)
+	execBody(c, "C12", cas, func() {
+		cfg := harness.DefaultConfig()
+		cfg.MQTT.MessageExpiry = time.Duration(M) * time.Second
+		w := harness.NewWorld(cfg, server.Hooks{})
+		if w.InitErr != nil {
+			c.Fatal("init: %v", w.InitErr)
+			return
+		}
+		p := w.Dial("P")
+		p.Connect(harness.ConnectOpts{ClientID: "pub", Clean: true, Version: refmqtt.V5})
+		s := w.Dial("S")
+		s.Connect(harness.ConnectOpts{ClientID: "sub", Clean: true, Version: refmqtt.V5, Props: &refmqtt.Props{SessionExpiry: harness.U32(7200), ReceiveMax: harness.U16(1)}})
+		s.Subscribe(0, refmqtt.Sub{Filter: "t", QoS: 1})
+		p.Send(&refmqtt.Packet{Type: refmqtt.PUBLISH, Topic: "t", QoS: 1, PacketID: p.PID(), Payload: []byte("blocker")})
+		vsched.Settle()
+		p.Recv()
+		var blocker *refmqtt.Packet
+		for _, r := range s.Recv() {
+			if r.P != nil && r.P.Type == refmqtt.PUBLISH {
+				blocker = r.P
+			}
+		}
+		if blocker == nil {
+			c.Fatal("C12: blocker message not delivered")
+			return
+		}
+		p.Send(&refmqtt.Packet{Type: refmqtt.PUBLISH, Topic: "r", QoS: 1, Retain: true, PacketID: p.PID(), Payload: []byte("kept"), Props: &refmqtt.Props{MessageExpiry: harness.U32(uint32(E))}})
+		vsched.Settle()
+		p.Recv()
+		s.Subscribe(0, refmqtt.Sub{Filter: "r", QoS: 1})
+		vsched.Advance(time.Duration(W) * time.Millisecond)
+		s.Send(&refmqtt.Packet{Type: refmqtt.PUBACK, PacketID: blocker.PacketID})
+		vsched.Settle()
+		var got []*refmqtt.Packet
+		for _, r := range s.Recv() {
+			if r.P != nil && r.P.Type == refmqtt.PUBLISH && string(r.P.Payload) == "kept" {
+				got = append(got, r.P)
+			}
+		}
+		drops := 0
+		for _, d := range w.Drops {
+			if d.Payload == "kept" && strings.Contains(d.Err, "expired") {
+				drops++
+			}
+		}
+		if W > E*1000 {
+			if len(got) != 0 {
+				c.Violate("expiry", "expired-retained-message-delivered-from-the-queue", cas(), "not delivered", got[0].String())
+			} else if drops != 1 {
+				c.Violate("drop-report", fmt.Sprintf("expired-retained-message-reported-%d-times", drops), cas(), "one OnMsgDropped(expired)", fmt.Sprint(w.Drops))
+			}
+			return
+		}
+		if len(got) != 1 || drops != 0 {
+			c.Violate("expiry", fmt.Sprintf("live-retained-message-delivered-%d-times", len(got)), cas(), "delivered once, no drop", fmt.Sprint(len(got), w.Drops))
+			return
+		}
+		if got[0].Props == nil || got[0].Props.MessageExpiry == nil {
+			c.Violate("remaining-lifetime", "property-absent-on-replayed-retained-message", cas(), "present", "absent")
+			return
+		}
+		v := int64(*got[0].Props.MessageExpiry)
+		wLo, wHi := W/1000, (W+999)/1000
+		if !(v == E-wLo || (v == E-wHi && v >= 1)) {
+			c.Violate("remaining-lifetime", "wrong-value-on-replayed-retained-message", cas(), fmt.Sprintf("%d (or %d)", E-wLo, E-wHi), fmt.Sprint(v))
+		}
+	})
+}
+
 func c12Backlogs(c *explore.Ctx) []c12Backlog {
 	var out []c12Backlog
 	maxN := 3
@@ -530,10 +609,14 @@ func c12Backlogs(c *explore.Ctx) []c12Backlog {
 
 func runC12(c *explore.Ctx) {
 	c.Level = "model_checking"
-	c.Rule = "E2 (virtual clock): the full grid publisher version x subscriber version x Message Expiry Interval {absent,2,5,100} x configured maximum {none,3s,10s} x waiting mode {online, offline then reconnect, in-flight window full, offline then delivered-unacknowledged then cut and resumed again (the DUP retransmission must carry a value between original minus everything waited and the value of the first transmission)} x waiting time {0, 0.6s, 1.4s, L-1, L-0.6s, L-0.4s, L+0.4s, L+1, L+30} (L = lifetime) x QoS, each on a fresh in-process broker: after the wait the message must be delivered exactly once (W < L) with Message Expiry Interval = original - whole seconds waited (a fraction may count down or up, never to 0), or not delivered and reported dropped as expired exactly once (W > L). Backlog: every sequence of 2..3 (thorough 4) messages over Message Expiry Interval {absent,2,5,100} published 0 / 0.7 s apart to an offline subscriber (v5, v3.1.1) or behind a full in-flight window, configured maximum {none,3s}, released after {0.6,2.6,3.9,5.6,31}s, on the memory backend and (v5 subscriber; quick: sequences of 2) on the redis backend (cases with a message within 0.3 s of its deadline are not generated): exactly the live messages arrive, in order, each with its own remaining lifetime, and every expired one is reported dropped exactly once. states = grid points."
+	c.Rule = "E2 (virtual clock): the full grid publisher version x subscriber version x Message Expiry Interval {absent,2,5,100} x configured maximum {none,3s,10s} x waiting mode {online, offline then reconnect, in-flight window full, offline then delivered-unacknowledged then cut and resumed again (the DUP retransmission must carry a value between original minus everything waited and the value of the first transmission)} x waiting time {0, 0.6s, 1.4s, L-1, L-0.6s, L-0.4s, L+0.4s, L+1, L+30} (L = lifetime) x QoS, each on a fresh in-process broker: after the wait the message must be delivered exactly once (W < L) with Message Expiry Interval = original - whole seconds waited (a fraction may count down or up, never to 0), or not delivered and reported dropped as expired exactly once (W > L). Backlog: every sequence of 2..3 (thorough 4) messages over Message Expiry Interval {absent,2,5,100} published 0 / 0.7 s apart to an offline subscriber (v5, v3.1.1) or behind a full in-flight window, configured maximum {none,3s}, released after {0.6,2.6,3.9,5.6,31}s, on the memory backend and (v5 subscriber; quick: sequences of 2) on the redis backend (cases with a message within 0.3 s of its deadline are not generated): exactly the live messages arrive, in order, each with its own remaining lifetime, and every expired one is reported dropped exactly once. Retained: a retained message with interval {2,5} (configured maximum none / 10 s) replayed to a new subscription behind a full window and released after 8 waiting times. states = grid points."
 	c.Trusted = []string{"vsched virtual clock", "refmqtt codec"}
 	c.Assumptions = []string{"for E above the configured maximum both E-W and M-W are accepted as forwarded value", "W == L (the boundary instant) is not generated"}
 	if rc := replayCase(c); rc != nil {
+		if rc["retained"] != nil {
+			c12Retained(c, int64(rc["E"].(float64)), int64(rc["M"].(float64)), int64(rc["Wms"].(float64)))
+			return
+		}
 		if rc["backlog"] != nil {
 			var es []int64
 			for _, e := range rc["Es"].([]any) {
@@ -600,6 +683,16 @@ func runC12(c *explore.Ctx) {
 			c.Sample(cases[u].String())
 		}
 	})
+	if !c.IsWorker() {
+		for _, E := range []int64{2, 5} {
+			for _, M := range []int64{0, 10} {
+				for _, W := range []int64{0, 600, 1400, E*1000 - 600, E*1000 + 400, E*1000 + 1400, 8000, 30000} {
+					c12Retained(c, E, M, W)
+					c.Count("transitions", 1)
+				}
+			}
+		}
+	}
 	bl := c12Backlogs(c)
 	c.Extra["backlog_cases"] = len(bl)
 	c.Units("backlog", len(bl), func(u int) {
